@@ -1,5 +1,5 @@
 SPECIFICATION SimSpec
-CONSTANTS CntChoices <- CntUnknown
+CONSTANTS CntChoices <- CntExact
           N = 4  EPS = 4  NF = 1  ROOT16 = FALSE  RS = 2  SPC = 2  Names = {"a", "b", "c"}  MaxLen = 1  MaxOpen = 1  K = 14
           BugF1 = FALSE BugF2 = FALSE BugF3 = FALSE BugF9 = FALSE BugF18 = FALSE BugF15 = FALSE HintChoices = {3}
 CONSTRAINT Bound
